@@ -14,7 +14,7 @@ func init() {
 	property("C09",
 		"Static conformance of text handling: (a) the terminator table is {plain: $, ascii: \\0, braille: $} and the terminator is appended exactly when the text does not already end with it, unknown types unchanged; (b) every text value recorded for hoisting or returned for a text statement is the terminator-formatted content with the very string type that is recorded/returned next to it; (c) the string type travels unchanged into ast.Text and selects the directive (default .string), and in the lexer a word directly followed by a quote is a string-type prefix whatever it spells; (d) the parallel text/type maps of a text poryswitch are read with the same key on every path; (e) one directive per line: emitText ranges over all lines of the value split at the same separator the lexer puts between adjacent literals and format() puts after a break. format() hands back the prefix literal iff a prefix was read (C09.c); every return of formatTextTerminator is one of the three documented ones (C09.a); every line gets its directive (C09.e); string literals are spelled by the source (C19.f); every program text is emitted (C10.f).",
 		[]string{"contents of string literals (what the lexer accepts inside quotes) are not decided", "go/ssa lowering is faithful to the source"},
-		"C09.a", "C09.b", "C09.c", "C09.d", "C09.e", "C06.b", "C06.c", "C07.c", "C19.c", "C19.f", "C10.f", "C12.f")
+		"C09.a", "C09.b", "C09.c", "C09.d", "C09.e", "C06.b", "C06.c", "C07.c", "C19.c", "C19.f", "C10.f", "C12.f", "C19.b", "C08.e")
 	property("C10",
 		"Static conformance of command pass-through: (a) every iteration of the argument loop either appends the (constant-substituted) literal of the current token, closes the argument, or takes one inline arm, and then advances by exactly one token; the loop ends at the matching ')' with parenthesis depth counted on '(' / ')', and a non-empty last argument is flushed; (b) a command is rendered as TAB name [SPACE args joined by ', '] NEWLINE from constant formats; (c) statements of a chunk are rendered in order, one render per element; (d) the command name is the token literal, never constant-substituted. Hoisted-argument patching is covered by C06.a/b/c. Emit hands every top-level statement to its emitter and writes the result (C10.f); every non-nil top-level statement is kept (C10.e); the depth counter only counts (C10.a); token literals are source text (C19.f); positions never decide parsing (C16.d).",
 		[]string{"go/ssa lowering is faithful to the source"},
@@ -644,7 +644,21 @@ func c09e(c *Ctx) {
 			if !(w.konst && w.format == "\n" && strings.HasPrefix(w.method, "Write")) {
 				continue
 			}
-			d := dropAtoms(c.PC(rs).At(w.call.Block()), func(a string) bool { return strings.Contains(a, "$0.ch") })
+			// (the pieces loop runs while the current character is a quote: that test of the
+			// character is the loop's, every other one is a further condition)
+			d0 := c.PC(rs).At(w.call.Block())
+			d := dnf{unknown: d0.unknown}
+			for _, cj := range d0.cs {
+				var n conj
+				for _, l := range cj {
+					if verRe.ReplaceAllString(l, "") == "+($0.ch == 34)" {
+						continue
+					}
+					n = append(n, l)
+				}
+				d.cs = append(d.cs, n)
+			}
+			d.cs = simplify(d.cs)
 			okG := len(d.cs) == 1 && len(d.cs[0]) == 1 && regexpMust(`^\+\(0 < \(\*strings\.Builder\)\.Len\(.*\)(@\d+)?\)$`).MatchString(d.cs[0][0])
 			if !okG && len(d.cs) == 1 && len(d.cs[0]) == 1 {
 				// a "not the first piece" flag: a phi that is false on entry and true round the loop
